@@ -160,3 +160,15 @@ func scanMaxSat(f gen.M) []core.Case {
 		"cfg": gen.M{"layout": 0, "layoutSeed": 0, "cap": 0}, "ev": []gen.M{gen.Op("solve"), gen.Op("solve"), gen.Op("solve")}}
 	return []core.Case{deepCopy(w), deepCopy(a)}
 }
+
+// scanOPB: C13. The selected constraint lists are printed as OPB text, parsed, dumped and counted.
+func scanOPB(f gen.M) []core.Case {
+	var cons []gen.M
+	for _, k := range sub(f, "cons") {
+		cons = append(cons, gen.Ctor(s(k, "k"), toInts(k["lits"]), toInts(k["w"]), n(k, "rhs")))
+	}
+	c := gen.M{"drv": "fmt", "kind": "opb", "n": n(f, "n"), "cons": cons, "hasObj": false, "obj": gen.NoObj(),
+		"cfg": gen.M{"layout": 0, "layoutSeed": 0, "reader": 0, "cap": 0, "cert": false, "reduceAt": 0, "restartEvery": 0, "cp": false, "amo": false, "wb": false},
+		"ev": []gen.M{gen.Op("parse")}}
+	return []core.Case{deepCopy(c)}
+}
